@@ -390,7 +390,9 @@ class Reshape(ArrayExpr):
 
         # Apply slice to input, then reshape
         sliced_input = new_collection(self.array)[tuple(input_index)]
-        result = Reshape(sliced_input.expr, new_out_shape)
+        # Through the public entry point: the sliced input may be 0-d, a single
+        # block, or already of the target shape, which reshape() short-circuits.
+        result = reshape(sliced_input, new_out_shape).expr
 
         # Re-apply None insertions if any using expand_dims
         if none_positions:
